@@ -64,6 +64,18 @@ fn gen_line(g: &mut Gen, r: &str) -> String {
 }
 
 fn gen_initial(g: &mut Gen, r: &str) -> String {
+    // an occurrence of R directly preceded by a proper prefix of R ("{{}}" for "{}"): a scanner that
+    // holds back partial matches must re-examine the byte that broke the partial match
+    let first: String = r.chars().take(1).collect();
+    let has_proper_prefix = r.chars().count() >= 2 && !r[first.len()..].starts_with(&first);
+    if has_proper_prefix && g.chance(1, 5) {
+        return match g.below(4) {
+            0 => format!("{first}{r}"),
+            1 => format!("${first}{r}{}", &r[first.len()..]),
+            2 => format!("{first}{first}{r}{first}"),
+            _ => format!("{r}{first}{r}"),
+        };
+    }
     match g.weighted(&[3, 3, 2, 2, 1, 1]) {
         0 => g.pick(&["-v", "x", "init", "é", "a b", "--opt=1"]).to_string(),
         1 => r.to_string(),
@@ -258,6 +270,7 @@ pub fn check(ctx: &mut Ctx, c: &Case) -> Outcome {
         .class_if(c.lines.iter().any(|l| l.contains(&c.r)), "line-contains-R")
         .class_if(c.lines.iter().any(|l| l.ends_with(is_blank)), "trailing-blank")
         .class_if(c.spelling != 0, "alternative-spelling")
+        .class_if(c.initial.iter().any(|i| { let f: String = c.r.chars().take(1).collect(); c.r.chars().count() >= 2 && i.contains(&format!("{f}{}", c.r)) }), "R-preceded-by-its-own-prefix")
         .class_if(c.r != "{}", "custom-R")
         .sample(json!({"cmdline": format!("xargs {} rec {:?}", opts.iter().map(|o| o.to_string_lossy().into_owned()).collect::<Vec<_>>().join(" "), c.initial), "input": lossy(&input), "invocations": got.len()}))
         .ok()
